@@ -35,11 +35,13 @@ class FileManager:
             if line.startswith(("- ", "o ", "~ ", "x ", "< ", "> ")):
                 in_note = True
                 found_note = True
-            if in_note and line.strip() == "":
+            if in_note and line == "":
+                # Only an empty line ends a note (a line of spaces is still
+                # part of it).
                 in_note = False
                 start_idx = i
         note_lines = note.to_string().split("\n")
-        if zlines[start_idx].strip() != "":
+        if zlines[start_idx] != "":
             # The page does not end with a newline: there is no blank line that
             # the note can take the place of, so append the note instead (after
             # an empty line unless the page ends with a note).
